@@ -51,7 +51,11 @@ def strategy(tier: str) -> Any:
     r = st.integers(0, 60)
     step = st.tuples(st.sampled_from(OPS), r, r, r, r, r).map(list)
     return st.fixed_dictionaries({
-        'backend': st.sampled_from(['dict', 'dict', 'maildir']),
+        # 'maildir-threads': the threading subsystem the command line uses
+        # (every backend call in a worker thread); commands are still issued
+        # one at a time, so the run stays reproducible
+        'backend': st.sampled_from(['dict', 'dict', 'dict', 'maildir',
+                                    'maildir', 'maildir-threads']),
         'init': st.lists(st.integers(0, 255), max_size=5),
         'prog': st.lists(step, min_size=1, max_size=30),
     })
@@ -151,7 +155,7 @@ def run_case(case: dict[str, Any]) -> CaseOut:
         first_uid = 101
     else:
         tmp = tempfile.mkdtemp(prefix='c10-')
-        sim = maildir_sim(tmp)
+        sim = maildir_sim(tmp, threads=backend == 'maildir-threads')
         first_uid = 1
     nt = False
     try:
